@@ -284,7 +284,7 @@ pub fn run(ctx: &Ctx) -> Report {
                 }
             }
             // (2) random histories over all operations
-            for _ in 0..ctx.pick(3, 600, 20000) / scale {
+            for _ in 0..ctx.pick(3, 4000, 30000) / scale {
                 let n = 1 + rng.below(30) as usize;
                 let mut ops = vec![];
                 for _ in 0..n {
@@ -333,7 +333,7 @@ pub fn run(ctx: &Ctx) -> Report {
             }
             // (2) random in-domain histories on random data
             let o = GenOpts { seeks: false, io: false, codes: true, clones: false, pos: false, max_read_code_len: 300 };
-            for hix in 0..ctx.pick(3, 600, 20000) / scale {
+            for hix in 0..ctx.pick(3, 4000, 30000) / scale {
                 let pat = [Pattern::Random, Pattern::ZeroRuns, Pattern::Sparse][hix % 3];
                 let nb = 8 * (2 + rng.below(40) as usize);
                 let img = random_image(&mut rng, pat, nb, e);
